@@ -88,7 +88,7 @@ type fsEntry struct {
 }
 
 // c19FailingDefines: generate `define` attributes whose name cannot be evaluated (the driver accepts null entries)
-var c19FailingDefines = false // switched on together with the extended FP model
+var c19FailingDefines = true
 
 // C19: the manager registers exactly the matching files under unique names.
 func propC19(c *ctx) error {
